@@ -16,7 +16,7 @@ from .. import cases as CS
 from .nlpprop import TRUSTED as T0, ASSUMPTIONS as A0, default_build
 
 PID = "C12"
-OPTS = {"methods": ["MS", "SS", "DC"], "deg_max": 2, "intgs": ["rk", "expl_euler"], "N_max": 3, "M_max": 2,
+OPTS = {"methods": ["MS", "SS", "DC"], "deg_max": 2, "intgs": ["rk", "expl_euler", "next"], "N_max": 3, "M_max": 3,
         "nx_max": 2, "nu_max": 1, "nc_min": 1, "nc_max": 3, "no_min": 1, "no_max": 2, "p_offset": 0.2,
         "p_freeT": 0.3, "p_freet0": 0.2, "roots": False}
 OPTS_T = dict(OPTS, N_max=4, M_max=3, nx_max=3)
